@@ -1746,6 +1746,8 @@ func (t *tr) translate(f *fnInfo) {
 	}
 	if f.selfRec {
 		notes = append(notes, "recursive: rfuel bounds the depth of the recursion (Err gfuel when exhausted)")
+	} else if f.needsRFuel {
+		notes = append(notes, "rfuel: handed to the recursive functions it calls")
 	}
 	if f.needsFuel {
 		notes = append(notes, "fuel: handed to every for statement, one unit per iteration (Err gfuel when exhausted)")
@@ -1869,7 +1871,11 @@ func header() string {
        the type parameter St_<name> of the generated definition, each method M called on it is
        a parameter m_<name>_<path>_M : St -> args -> res (St * results), the state is threaded
        through every call and returned first.  This assumes that distinct abstract objects do
-       not share state and that nothing else changes the state during the call;
+       not share state and that nothing else changes the state during the call.  A pointer
+       receiver (*T for a struct T of abstract objects) is assumed non-nil;
+     * thrift.NewProtocolExceptionWithErr(err) is GoSem.gpe_wrap: panics on a nil err, otherwise
+       the exception wrapping err, identified by gwrapped c (err is assumed not to be a
+       *ProtocolException already; the errors of a bufiox.Reader are not);
      * fmt.Errorf / errors.New / thrift.NewProtocolException build a non-nil error identified by
        <pkg>.<func>#<constructor>[#k] (k-th call of that constructor in the function when there
        are several); their arguments must be free of effects, except err.Error(), which panics
